@@ -910,6 +910,7 @@ pub fn c03_threshold_cases(l: u64, n: u64) -> Vec<ServeCase> {
                 c.cap = 1 << 14;
                 c.extra_polls = 0;
                 c.hdrs.push(("range".into(), format!("bytes={}", specs.join(",")).into_bytes()));
+                c.data_kind = ((out.len() % 3) == 2) as u8;
                 out.push(c);
             }
         }
@@ -972,6 +973,7 @@ impl Prop for C03 {
             c.cap = 1 << 14;
             c.extra_polls = 0;
             c.hdrs.push(("range".into(), value.to_vec()));
+            c.data_kind = (hash64(&(l, value)) % 3 == 1) as u8; // a third with the multi-segment Data type
             exec(&c, sink, &c03_judge);
             // every fifth request once more for an entity with validators, next to a header that
             // must not change the outcome
@@ -1069,6 +1071,7 @@ impl Prop for C03 {
                         c.cap = 1 << 23; // the whole multipart body, so that every part is read back
                         c.extra_polls = 0;
                         c.hdrs.push(("range".into(), crate::gen::many_ranges(l, n, layout)));
+                        c.data_kind = (layout % 2) as u8;
                         exec(&c, sink, &c03_judge);
                         sink.count("many_spec_requests");
                     }
@@ -2863,7 +2866,7 @@ impl Prop for C15 {
                             if !sink.admit() {
                                 continue;
                             }
-                            let mk = |method: &str| crate::e2::StreamCase { method: method.into(), accept_encoding: ae.map(|v| v.to_vec()), chunk, gzip_level: level, via_parts, payload: crate::e2::Payload::Text, ops: vec![crate::e2::Op::WriteAll(100)], extra_polls: 1, fresh_wakers: false, prelude: 0, builder_detour: 0 };
+                            let mk = |method: &str| crate::e2::StreamCase { method: method.into(), accept_encoding: ae.map(|v| v.to_vec()), chunk, gzip_level: level, via_parts, payload: crate::e2::Payload::Text, ops: vec![crate::e2::Op::WriteAll(100)], extra_polls: 1, fresh_wakers: false, prelude: 0, builder_detour: 0, noise: 0 };
                             let (g, h) = match (crate::e2::run_stream(&mk("GET")), crate::e2::run_stream(&mk("HEAD"))) {
                                 (Some(g), Some(h)) => (g, h),
                                 _ => continue,
